@@ -3,6 +3,7 @@ package main
 // Maps, range iteration, strings, models of standard-library functions.
 
 import (
+	"os"
 	"fmt"
 	"go/constant"
 	"go/types"
@@ -238,6 +239,10 @@ func (c *Ctx) strSub(s, lo, hi Term) Term {
 			return c.strSub(base, Add(a, lo), nhi)
 		}
 	}
+	if hi.S == Add(lo, IntLit(1)).S && os.Getenv("GOVC_NOBYTESTR") == "" {
+		// a one-byte substring in canonical form (the slice bounds are checked where the code slices)
+		return c.byteStr(app(SInt, "sat", s, lo))
+	}
 	r := app(SStr, "ssub", s, lo, hi)
 	key := "sub|" + r.S
 	if !c.unfolded[key] {
@@ -310,6 +315,36 @@ func (f *Frame) stdModel(in ssa.Instruction, callee *ssa.Function, cc *ssa.CallC
 	switch name {
 	case "(*sync.Mutex).Lock", "(*sync.Mutex).Unlock", "(*sync.RWMutex).Lock", "(*sync.RWMutex).Unlock", "(*sync.RWMutex).RLock", "(*sync.RWMutex).RUnlock":
 		c.note("assumed", "mutex operations are no-ops: contracts of lock-protected code hold only if the lock discipline excludes interference")
+		return nil, true
+	case "(*strings.Builder).WriteByte", "(*strings.Builder).WriteString", "(*strings.Builder).WriteRune", "(*strings.Builder).Write", "(*strings.Builder).Reset":
+		c.note("assumed", "assumed contract: strings.Builder accumulates exactly the bytes written to it (ghost content per builder); its write methods never fail")
+		g := c.heapGet(st, ghostBuilder, ArrSort(SInt, SStr))
+		cur := Select(g, args[0][0])
+		var nv Term
+		res := f.freshResults(cc, st, callee.Name())
+		switch callee.Name() {
+		case "WriteByte":
+			nv = c.strConcat(cur, c.byteStr(args[1][0]))
+			st.assume(c, Eq(res[0], IntLit(0)))
+		case "WriteString":
+			nv = c.strConcat(cur, args[1][0])
+			st.assume(c, And(Eq(res[0], c.strLen(args[1][0])), Eq(res[1], IntLit(0))))
+		case "Reset":
+			nv = Term{"str_empty", SStr}
+		default:
+			// WriteRune / Write: some bytes are appended
+			nv = c.strConcat(cur, c.fresh("sbw", SStr))
+			st.assume(c, Eq(res[len(res)-2], IntLit(0)))
+		}
+		c.setHeap(st, ghostBuilder, c.define("ghost", Store(g, args[0][0], nv)))
+		return res, true
+	case "(*strings.Builder).String":
+		g := c.heapGet(st, ghostBuilder, ArrSort(SInt, SStr))
+		return []Term{Select(g, args[0][0])}, true
+	case "(*strings.Builder).Len":
+		g := c.heapGet(st, ghostBuilder, ArrSort(SInt, SStr))
+		return []Term{c.strLen(Select(g, args[0][0]))}, true
+	case "(*strings.Builder).Grow":
 		return nil, true
 	case "(*bufio.Reader).ReadByte":
 		c.note("assumed", "assumed contract: bufio.Reader.UnreadByte succeeds when the most recent reader operation was a successful ReadByte (ghost flag canUnread)")
@@ -390,6 +425,47 @@ func (f *Frame) stdModel(in ssa.Instruction, callee *ssa.Function, cc *ssa.CallC
 			st.assume(c, Forall([]Term{kq}, Implies(And(Ge(kq, IntLit(0)), Lt(kq, bound)), Not(isOne(kq))), []Term{app(SInt, "sat", sT, kq)}))
 			return []Term{r}, true
 		}
+	case "strconv.FormatUint", "strconv.FormatInt", "strconv.Itoa":
+		base := IntLit(10)
+		if name != "strconv.Itoa" {
+			base = args[1][0]
+		}
+		if base.S == "10" {
+			c.note("assumed", "assumed contract: strconv.FormatUint/FormatInt/Itoa(x, 10) for x >= 0 is the decimal numeral decstr(x): digits only, no sign, and ParseUint/ParseInt read it back as x")
+			x := args[0][0]
+			r := c.decstr(x)
+			if name == "strconv.FormatUint" {
+				return []Term{r}, true
+			}
+			neg := c.fresh("fmtneg", SStr)
+			return []Term{Ite(Ge(x, IntLit(0)), r, neg)}, true
+		}
+	case "strconv.ParseUint", "strconv.ParseInt", "strconv.Atoi":
+		var base, bits Term
+		if name == "strconv.Atoi" {
+			base, bits = IntLit(10), IntLit(64)
+		} else {
+			base, bits = args[1][0], args[2][0]
+		}
+		bc, okb := bits.intConst()
+		if base.S == "10" && okb && bc.IsInt64() && bc.Int64() > 0 && bc.Int64() <= 64 {
+			c.note("assumed", "assumed contract: strconv.ParseUint/ParseInt/Atoi(s, 10, bits) on a string of decimal digits succeeds exactly when the value fits (unsigned: < 2^bits, signed: < 2^(bits-1)) and returns that value; ParseUint fails on anything that is not all digits")
+			sT := args[0][0]
+			res := f.freshResults(cc, st, callee.Name())
+			v := res[0]
+			ok := Eq(res[1], IntLit(0))
+			dv := c.decval(sT)
+			dg := c.sdigits(sT)
+			nb := uint(bc.Int64())
+			if name == "strconv.ParseUint" {
+				st.assume(c, Eq(ok, And(dg, Lt(dv, BigLit(pow2(nb))))))
+				st.assume(c, Implies(ok, Eq(v, dv)))
+			} else {
+				st.assume(c, Implies(dg, Eq(ok, Lt(dv, BigLit(pow2(nb-1))))))
+				st.assume(c, Implies(And(dg, ok), Eq(v, dv)))
+			}
+			return res, true
+		}
 	case "errors.New", "fmt.Errorf":
 		// a non-nil error value
 		tid := c.fresh("errtid", SInt)
@@ -423,6 +499,60 @@ func (c *Ctx) timeInstant(t Term) Term {
 }
 
 const ghostCanUnread = "G|bufio.canUnread"
+const ghostBuilder = "G|strings.Builder.content"
+
+// byteStr: the one-byte string holding b.
+func (c *Ctx) byteStr(b Term) Term {
+	if !c.declared["bytestr"] {
+		c.declared["bytestr"] = true
+		c.emit("(declare-fun bytestr (Int) Str)")
+		c.emit("(assert (forall ((b Int)) (! (and (= (slen (bytestr b)) 1) (=> (and (<= 0 b) (<= b 255)) (= (sat (bytestr b) 0) b))) :pattern ((bytestr b)))))")
+	}
+	return app(SStr, "bytestr", b)
+}
+
+// decval / sdigits / decstr: decimal numerals as uninterpreted functions with
+// their defining properties instantiated per term.
+func (c *Ctx) decval(s Term) Term {
+	if !c.declared["decval"] {
+		c.declared["decval"] = true
+		c.emit("(declare-fun decval (Str) Int)")
+		c.emit("(assert (forall ((s Str)) (! (>= (decval s) 0) :pattern ((decval s)))))")
+	}
+	return app(SInt, "decval", s)
+}
+
+func (c *Ctx) sdigits(s Term) Term {
+	if !c.declared["sdigits"] {
+		c.declared["sdigits"] = true
+		c.emit("(declare-fun sdigits (Str) Bool)")
+	}
+	r := app(SBool, "sdigits", s)
+	key := "digits|" + r.S
+	if !c.unfolded[key] {
+		c.unfolded[key] = true
+		c.n++
+		i := Term{fmt.Sprintf("i!%d", c.n), SInt}
+		ch := app(SInt, "sat", s, i)
+		all := Forall([]Term{i}, Implies(And(Ge(i, IntLit(0)), Lt(i, c.strLen(s))), And(Ge(ch, IntLit(48)), Le(ch, IntLit(57)))), []Term{ch})
+		c.addFactOrAssert(Eq(r, And(Gt(c.strLen(s), IntLit(0)), all)))
+	}
+	return r
+}
+
+func (c *Ctx) decstr(x Term) Term {
+	if !c.declared["decstr"] {
+		c.declared["decstr"] = true
+		c.emit("(declare-fun decstr (Int) Str)")
+	}
+	r := app(SStr, "decstr", x)
+	key := "decstr|" + r.S
+	if !c.unfolded[key] {
+		c.unfolded[key] = true
+		c.addFactOrAssert(Implies(Ge(x, IntLit(0)), And(c.sdigits(r), Eq(c.decval(r), x), Ge(c.strLen(r), IntLit(1)))))
+	}
+	return r
+}
 
 // strPrefix: HasPrefix as an uninterpreted predicate with explicit unfolding.
 func (c *Ctx) strPrefix(s, p Term, depth int) Term {
